@@ -82,6 +82,9 @@ CONSTANTS Family,   \* "C10q" | "C10t" | "C11q" | "C11t" | "C11dev" | "C10dev" |
 (****************************** algorithm table ****************************)
 CBCs == {"aes128-cbc", "aes192-cbc", "aes256-cbc", "tripledes-cbc"}
 BCs  == CBCs \cup {"aes128-gcm"}
+\* round 8: every AES-GCM identifier XML Encryption 1.1 (section 5.2.4) defines - the identifier dimension of the GCM
+\* tamper family (F8).  Whether the package registers a decrypter under it is Registered(d, a), not membership here.
+GcmIds == {"aes128-gcm", "aes192-gcm", "aes256-gcm"}
 KTs  == {"rsa-oaep-mgf1p", "rsa-oaep11", "rsa-1_5"}
 Digests == {"sha1", "sha256", "sha512", "ripemd160"}
 
@@ -90,6 +93,8 @@ Uri(a) == CASE a = "aes128-cbc"     -> "http://www.w3.org/2001/04/xmlenc#aes128-
             [] a = "aes256-cbc"     -> "http://www.w3.org/2001/04/xmlenc#aes256-cbc"
             [] a = "tripledes-cbc"  -> "http://www.w3.org/2001/04/xmlenc#tripledes-cbc"
             [] a = "aes128-gcm"     -> "http://www.w3.org/2009/xmlenc11#aes128-gcm"
+            [] a = "aes192-gcm"     -> "http://www.w3.org/2009/xmlenc11#aes192-gcm"
+            [] a = "aes256-gcm"     -> "http://www.w3.org/2009/xmlenc11#aes256-gcm"
             [] a = "rsa-oaep-mgf1p" -> "http://www.w3.org/2001/04/xmlenc#rsa-oaep-mgf1p"
             [] a = "rsa-oaep11"     -> "http://www.w3.org/2009/xmlenc11#rsa-oaep"
             [] a = "rsa-1_5"        -> "http://www.w3.org/2001/04/xmlenc#rsa-1_5"
@@ -101,6 +106,8 @@ W3C(a) == CASE a = "aes128-cbc"    -> [mode |-> "cbc", cipher |-> "aes",  key |-
             [] a = "aes256-cbc"    -> [mode |-> "cbc", cipher |-> "aes",  key |-> 32, block |-> 16, iv |-> 16, tag |-> 0]
             [] a = "tripledes-cbc" -> [mode |-> "cbc", cipher |-> "3des", key |-> 24, block |-> 8,  iv |-> 8,  tag |-> 0]
             [] a = "aes128-gcm"    -> [mode |-> "gcm", cipher |-> "aes",  key |-> 16, block |-> 16, iv |-> 12, tag |-> 16]
+            [] a = "aes192-gcm"    -> [mode |-> "gcm", cipher |-> "aes",  key |-> 24, block |-> 16, iv |-> 12, tag |-> 16]
+            [] a = "aes256-gcm"    -> [mode |-> "gcm", cipher |-> "aes",  key |-> 32, block |-> 16, iv |-> 12, tag |-> 16]
 
 (***************************** named deviations ****************************)
 \* xmlenc/cbc.go:181          paddingBytes > len(buf)-1 : a full block of padding (empty plaintext) is refused
@@ -160,6 +167,9 @@ W3C(a) == CASE a = "aes128-cbc"    -> [mode |-> "cbc", cipher |-> "aes",  key |-
 \* OaepExactFitRefused        (round 7; no tree) pubkey.go:93 keyEncrypter -> rsa.EncryptOAEP refuses a session key of more than
 \*                            k - 2 hLen - 2 octets (k the octets of the modulus, hLen of the digest; RFC 8017 7.1.1).  TRUE: Encrypt
 \*                            also refuses the key that fills that room exactly (<= written for <).
+\* GcmAsCbc                   (round 8; no tree) gcm.go:138-148: a decrypter is registered under ...xmlenc11#aes256-gcm whose value is
+\*                            a CBC{keySize 32} (copied from AES256CBC): the cipher value is read as IV + whole blocks + padding,
+\*                            nothing is authenticated.  FALSE: only aes128-gcm is registered (the unchanged tree).
 DevNone ==
   [StripOffByOne |-> FALSE, AcceptOversizePadding |-> FALSE, DesSingleKey |-> FALSE, DecIvFixed16 |-> FALSE,
    NoAlignCheck |-> FALSE, GcmPads |-> FALSE, GcmNonceShadowed |-> FALSE, GcmSealsZeros |-> FALSE,
@@ -168,7 +178,7 @@ DevNone ==
    NoKeyCompletenessCheck |-> FALSE, Oaep11MgfIsDigest |-> FALSE, PrefixBound |-> {},
    AbsentDigestKeepsConfigured |-> FALSE, OaepParamsIgnored |-> FALSE, KeyRefusal |-> {}, ValidatesKey |-> FALSE,
    UncheckedPrecomputed |-> FALSE, MgfErrorSlicesIdentifier |-> FALSE, RetrievalMethod |-> "ignored", CtorCaptured |-> {},
-   UnwrapNeedsPrecomputed |-> FALSE, OaepExactFitRefused |-> FALSE]
+   UnwrapNeedsPrecomputed |-> FALSE, OaepExactFitRefused |-> FALSE, GcmAsCbc |-> FALSE]
 DevPinned ==
   [StripOffByOne |-> TRUE, AcceptOversizePadding |-> TRUE, DesSingleKey |-> TRUE, DecIvFixed16 |-> TRUE,
    NoAlignCheck |-> TRUE, GcmPads |-> TRUE, GcmNonceShadowed |-> TRUE, GcmSealsZeros |-> TRUE,
@@ -177,7 +187,7 @@ DevPinned ==
    NoKeyCompletenessCheck |-> TRUE, Oaep11MgfIsDigest |-> FALSE, PrefixBound |-> {},
    AbsentDigestKeepsConfigured |-> FALSE, OaepParamsIgnored |-> TRUE, KeyRefusal |-> {}, ValidatesKey |-> FALSE,
    UncheckedPrecomputed |-> TRUE, MgfErrorSlicesIdentifier |-> FALSE, RetrievalMethod |-> "ignored", CtorCaptured |-> {},
-   UnwrapNeedsPrecomputed |-> FALSE, OaepExactFitRefused |-> FALSE]
+   UnwrapNeedsPrecomputed |-> FALSE, OaepExactFitRefused |-> FALSE, GcmAsCbc |-> FALSE]
 \* the tree with the patches of /verif/fixes/C10-*.patch, C11-*.patch, C11b-*.patch applied
 DevFixed ==
   [StripOffByOne |-> FALSE, AcceptOversizePadding |-> TRUE, DesSingleKey |-> FALSE, DecIvFixed16 |-> FALSE,
@@ -187,12 +197,12 @@ DevFixed ==
    NoKeyCompletenessCheck |-> FALSE, Oaep11MgfIsDigest |-> TRUE, PrefixBound |-> {},
    AbsentDigestKeepsConfigured |-> FALSE, OaepParamsIgnored |-> TRUE, KeyRefusal |-> {}, ValidatesKey |-> FALSE,
    UncheckedPrecomputed |-> FALSE, MgfErrorSlicesIdentifier |-> FALSE, RetrievalMethod |-> "ignored", CtorCaptured |-> {},
-   UnwrapNeedsPrecomputed |-> FALSE, OaepExactFitRefused |-> FALSE]
+   UnwrapNeedsPrecomputed |-> FALSE, OaepExactFitRefused |-> FALSE, GcmAsCbc |-> FALSE]
 \* The deviations the required design is run with: none.  XmlEnc_C11dev.cfg replaces ReqDev by DevSeeded5 - the two
 \* behaviours of round 5 switched on - and TLC must then REFUTE Total (the check breaks when it does not): the two new
 \* dimensions are not vacuous.
 ReqDev == DevNone
-DevSeeded5 == [DevNone EXCEPT !.MgfErrorSlicesIdentifier = TRUE, !.RetrievalMethod = "xpath"]
+DevSeeded5 == [DevNone EXCEPT !.MgfErrorSlicesIdentifier = TRUE, !.RetrievalMethod = "xpath", !.GcmAsCbc = TRUE]
 \* round 6: the xmlenc11 constructors folded into a helper whose key-wrapping closure uses the helper's argument
 \* (XmlEnc_C10dev.cfg, phase enc-deviation-refuted of the thorough tier: TLC must refute RoundTrip and WrapsAsAnnounced)
 DevSeeded6 == [DevNone EXCEPT !.CtorCaptured = {<<"OAEP_SHA256", "wrap-digest">>, <<"OAEP_SHA512", "wrap-digest">>}]
@@ -207,7 +217,8 @@ Cipher(d, a)  == IF a = "tripledes-cbc" /\ d.DesSingleKey THEN "des" ELSE W3C(a)
 Block(a)      == W3C(a).block
 IvEnc(a)      == W3C(a).block                      \* cbc.go:64 make([]byte, block.BlockSize())
 IvDec(d, a)   == IF d.DecIvFixed16 THEN 16 ELSE W3C(a).block
-Registered(d, a) == a \in BCs \/ a \in {"rsa-oaep-mgf1p", "rsa-1_5"} \/ (a = "rsa-oaep11" /\ ~d.Oaep11Unregistered)
+Mode(d, a)    == IF a = "aes256-gcm" /\ d.GcmAsCbc THEN "cbc" ELSE W3C(a).mode
+Registered(d, a) == a \in BCs \/ (a = "aes256-gcm" /\ d.GcmAsCbc) \/ a \in {"rsa-oaep-mgf1p", "rsa-1_5"} \/ (a = "rsa-oaep11" /\ ~d.Oaep11Unregistered)
 
 (***************************** symbolic values *****************************)
 \* v: the VALUE class of a byte string that is a symmetric key ("std": random octets), table KeyParts below
@@ -874,9 +885,24 @@ F7c == UNION { { [fam |-> "keyinfo", via |-> "ref", el |-> g.el, sibs |-> g.sibs
                : a \in RefBcs }
 F7 == F7a \cup F7b \cup F7c
 
+\* F8 (round 8): the IDENTIFIER dimension of "for AES-GCM any modification of the cipher value is rejected".  For every
+\* AES-GCM identifier the W3C defines (key 16 / 24 / 32), registered by the package or not: a genuine cipher value made by
+\* an independent implementation under the right key - body 0, 1, 20 and 36 octets - and every modification of it: one bit
+\* in the nonce / body / tag, the last octet or the last 16 octets cut off, 16 octets appended (mod trunc1 / truncblk /
+\* extblk: len differs from nonce + body + tag), random octets of the same length (junk), and a genuine CBC cipher value
+\* of the same key (made cbc: what an unauthenticated mode would take).  Direct key.
+GcmTamper(a, n) ==
+  LET kl == W3C(a).key full == 12 + n + 16 IN
+  { DataEl(a, "ok", full, RefGcm(a, kl, n, m), <<>>) : m \in {"none", "nonce", "tag"} \cup (IF n > 0 THEN {"body"} ELSE {}) }
+  \cup { DataEl(a, "ok", full - 1, RefGcm(a, kl, n, "trunc1"), <<>>), DataEl(a, "ok", full - 16, RefGcm(a, kl, n, "truncblk"), <<>>),
+         DataEl(a, "ok", full + 16, RefGcm(a, kl, n, "extblk"), <<>>), DataEl(a, "ok", full, [Junk EXCEPT !.klen = kl], <<>>) }
+F8Cbc(a) == DataEl(a, "ok", 16 + 32, Blk("cbc", "aes", "K", W3C(a).key, 16, 32, 0, Bytes(29, "P"), 3, "p", FALSE, "none"), <<>>)
+F8 == UNION { { [fam |-> "gcmid", via |-> "direct", el |-> e, key |-> KeyVal("bytes", W3C(a).key, "K")]
+                : e \in {F8Cbc(a)} \cup UNION { GcmTamper(a, n) : n \in {0, 1, 20, 36} } } : a \in GcmIds }
+
 C11Base == F1 \cup F2 \cup F3 \cup F3k \cup F4 \cup F4b \cup F4x \cup F5
 C11New == F3m \cup F3v \cup F4oSet      \* round 4 (the new key shapes are part of F3 / F3k)
-C11Round5 == F4g \cup F7
+C11Round5 == F4g \cup F7 \cup F8
 \* F6: the lexical form.  Cases of every verdict class - lengths around a well-formed cipher value with every final byte /
 \* modified region, every structural variant, EncryptedKey variants (digest method absent / unknown / known, MGF, X509Data
 \* absent / matching / other key / hints with and without certificate), nesting and repetition - written in every form.
@@ -906,7 +932,8 @@ WithLex(S, l) == { [fam |-> x.fam, via |-> x.via, el |-> x.el, key |-> x.key, le
 C11DevSet == WithLex({ x \in F4g : x.via = "ek" /\ x.el.dm = Dm("sha256", "w3c") /\ x.el.cert = "sp" /\ x.el.mgfid \in {"w3c", "noattr", "short", "unknown"} }
                      \cup { x \in F7a : x.el.em = "aes128-cbc" /\ x.key = SpKey /\ x.sibs # <<>> /\ x.el.ki[1].uri \in {"plain", "quote", "brackets"} }
                      \cup { x \in F7c : x.el.em = "aes128-cbc" /\ x.key = SpKey
-                                         /\ x.tag \in {"graph=self:at=inline", "graph=cycle2:at=sibling", "graph=chain:ends=rsa"} }, LexPkg)
+                                         /\ x.tag \in {"graph=self:at=inline", "graph=cycle2:at=sibling", "graph=chain:ends=rsa"} }
+                     \cup { x \in F8 : x.el.ct.body \in {0, 20, 32} }, LexPkg)
 C11Set == IF Family = "C11dev" THEN C11DevSet
           ELSE WithLex(C11Base \cup C11New \cup C11Round5, LexPkg) \cup UNION { WithLex(LexBase, l) : l \in LexForms \ {LexPkg} }
 
@@ -1244,7 +1271,7 @@ NewCipher == /\ pc = "NewCipher"
 \* getCiphertext: ./CipherData/CipherValue, base64
 Decode == /\ pc = "Decode"
           /\ IF Top.cv # "ok" THEN Fail("error", "CipherValue")
-             ELSE IF W3C(Top.em).mode = "gcm" THEN Goto("GcmSplit") ELSE Goto("LenCheck")
+             ELSE IF Mode(DD, Top.em) = "gcm" THEN Goto("GcmSplit") ELSE Goto("LenCheck")
 \* cbc.go:111  len(ciphertext) < block.BlockSize()        (required: IV and a positive number of whole blocks)
 LenCheck == /\ pc = "LenCheck"
             /\ LET a == Top.em bs == Block(a) iv == IvDec(DD, a) IN
@@ -1429,13 +1456,16 @@ CertMismatch(e, k) == /\ e.em \in KTs /\ k.t \in RsaHolders
                       /\ LET x == X509(e.cert).certs IN
                          /\ \E i \in 1..Len(x) : x[i].kind # "garbage"
                          /\ \A i \in 1..Len(x) : ~Matches(x[i], k)
-BadLength(e) == e.em \in BCs /\ e.cv = "ok" /\
+BadLength(e) == e.em \in BCs \cup GcmIds /\ e.cv = "ok" /\
                 LET w == W3C(e.em) IN
                 IF w.mode = "cbc" THEN e.len < w.iv + w.block \/ (e.len - w.iv) % w.block # 0
                                   ELSE e.len < w.iv + w.tag
 BadPadding(e) == e.em \in CBCs /\ e.cv = "ok" /\ ~BadLength(e) /\ e.ct.k = "blk" /\ e.ct.made = "cbc"
                  /\ (e.ct.last = 0 \/ e.ct.last > e.ct.body)
-GcmModified(e) == e.em = "aes128-gcm" /\ e.cv = "ok" /\ e.ct.k = "blk" /\ (e.ct.made = "junk" \/ e.ct.mod # "none")
+\* every identifier of GcmIds names AES-GCM, whatever the package registers under it; a cipher value that was not made by
+\* AES-GCM sealing (junk, a CBC cipher value) or is not nonce + body + tag of what was sealed is a modified one
+GcmModified(e) == e.em \in GcmIds /\ e.cv = "ok" /\ e.ct.k = "blk"
+                  /\ (e.ct.made # "gcm" \/ e.ct.mod # "none" \/ e.len # e.ct.iv + e.ct.body + e.ct.tag)
 MustRejectLevel(i) == LET e == CPath[i] k == LevelKey(i) IN
   BadAlgorithm(e) \/ BadDigest(e) \/ BadKey(e, k) \/ CertMismatch(e, k) \/ BadLength(e) \/ BadPadding(e) \/ GcmModified(e)
 C11MustReject == \E i \in 1..Len(CPath) : MustRejectLevel(i)
@@ -1449,6 +1479,7 @@ Baseline == /\ ~C11MustReject
                  /\ (e.em \in KTs => (c.key.t = "rsa" /\ c.key.shape \in {"std", "noprecomp", "noprimes"}))
                  /\ (e.em \in CBCs => (e.ct.made = "cbc" /\ e.ct.last >= 1 /\ e.ct.last <= W3C(e.em).block))
                  /\ (e.em = "aes128-gcm" => e.ct.made = "gcm")
+                 /\ e.em \notin GcmIds \ BCs    \* an AES-GCM identifier nobody must implement: no clause demands acceptance
                  /\ (e.em \in KTs => (e.ct.scheme # "junk" /\ e.ct.to = c.key.id /\ e.dm.k # "unknown"
                                       /\ (e.dm.k = "known" => e.dm.uri \in {"both", "w3c"})))
 C11Class == IF C11MustReject THEN "MustReject" ELSE "DontCare"
@@ -1461,6 +1492,9 @@ Total == ~IsC10 /\ Required => out.dec.k # "panic" /\ ret.k # "panic"
 NoIdentifierSlice == ~IsC10 /\ Required => ret.why # "SliceIdentifier"
 NoPathPanic == ~IsC10 /\ Required => ret.why # "PathSyntax"
 NoUnboundedRecursion == ~IsC10 /\ Required => ret.why # "UnboundedRecursion"
+\* "for AES-GCM any modification of the cipher value is rejected" - for every AES-GCM identifier (XmlEnc_C11dev.cfg: must
+\* be refuted under GcmAsCbc)
+GcmTamperRejected == Done /\ ~IsC10 /\ Required /\ (\E i \in 1..Len(CPath) : GcmModified(CPath[i])) => out.dec.k = "error"
 RejectsMalformed == Done /\ ~IsC10 /\ Required /\ C11MustReject => out.dec.k = "error"
 BaselineDecrypts == Done /\ ~IsC10 /\ Required /\ Baseline => out.dec.k = "plaintext"
 
